@@ -70,7 +70,7 @@ def run_property(mod, tier):
     cases += mod.gen_cases(tier, rng)
     hexes = [c["hex"] for c in cases]
     model_out = run_model(hexes)
-    impl_out = run_impl(hexes)
+    impl_out = run_impl(hexes, per_shard=getattr(mod, "CASES_PER_SHARD", 200))
 
     mismatches = []
     abstained = 0
